@@ -23,6 +23,8 @@ type runSem struct {
 	err        error
 	violations []string
 	// watcher goroutine (C13)
+	sites      map[ssa.Instruction]*absint.SiteLog // panic-site verdicts of everything the summary interpreted (C12)
+	funcs      []string                            // functions the summary interpreted
 	hasWatcher bool
 	goStarted  bool     // a goroutine is started with a go statement (it must be ended on every return)
 	watch      []string // violations of the hand-off protocol
@@ -79,6 +81,7 @@ func runSemPass1(cx *Ctx, carried []absint.CarriedLoc) (rs *runSem, changed []ab
 	cx.E.Preconditions(in)
 	in.LoopBodies = true
 	in.NoGlobalEvents = true
+	in.Sites = map[ssa.Instruction]*absint.SiteLog{}
 	if carried != nil {
 		in.LoopCarried = map[int][]absint.CarriedLoc{1: carried}
 	}
@@ -241,7 +244,23 @@ func runSemPass1(cx *Ctx, carried []absint.CarriedLoc) (rs *runSem, changed []ab
 	in.SharedRoots = map[string]bool{}
 	in.WatchStores = map[string]bool{}
 	in.SharedLoad = func(root, path string, w int) absint.Value {
-		plainLoads = append(plainLoads, plainLoad{root, in.CurPred(), ""})
+		// name the load after the shared cell it falls into
+		cell := root
+		if path != "" {
+			cell = root + "|" + path
+		}
+		for _, set := range []map[string]bool{published, plainStored, atomLoaded} {
+			for c := range set {
+				if i := strings.IndexByte(c, '|'); i >= 0 && c[:i] == root {
+					if cp := c[i+1:]; path == cp || strings.HasPrefix(path, cp+".") || strings.HasPrefix(path, cp+"[") {
+						cell = c
+					}
+				} else if c == root {
+					cell = c
+				}
+			}
+		}
+		plainLoads = append(plainLoads, plainLoad{cell, in.CurPred(), ""})
 		n := fresh("shared(" + root + ")")
 		if w > 0 {
 			return c.Atom(n, w)
@@ -253,7 +272,10 @@ func runSemPass1(cx *Ctx, carried []absint.CarriedLoc) (rs *runSem, changed []ab
 	}
 	cellOf := func(v absint.Value) string {
 		if p, ok := v.(*absint.Ptr); ok {
-			return p.Root
+			if p.Path == "" {
+				return p.Root
+			}
+			return p.Root + "|" + p.Path // a field of a larger object: only that field is the cell
 		}
 		return "?"
 	}
@@ -329,7 +351,11 @@ func runSemPass1(cx *Ctx, carried []absint.CarriedLoc) (rs *runSem, changed []ab
 		if i == 0 {
 			args = append(args, &absint.Ptr{Root: "cpu", Nil: bdd.False})
 		} else {
-			args = append(args, in.SymbolicValue(p.Type(), "ctx"))
+			v := in.SymbolicValue(p.Type(), "ctx")
+			if iv, ok := v.(*absint.Iface); ok {
+				iv.Nil = bdd.False // precondition of Run: a non-nil context
+			}
+			args = append(args, v)
 		}
 	}
 	_ = noop
@@ -339,6 +365,10 @@ func runSemPass1(cx *Ctx, carried []absint.CarriedLoc) (rs *runSem, changed []ab
 		return rs, nil
 	}
 	rs.steps = stepN
+	rs.sites = in.Sites
+	for fn := range in.Funcs {
+		rs.funcs = append(rs.funcs, fn.String())
+	}
 	if len(in.Loops) != 1 {
 		rs.err = fmt.Errorf("UNDECIDED: Run has %d loops, the summary handles exactly one", len(in.Loops))
 		return rs, nil
@@ -558,6 +588,46 @@ func runSemPass1(cx *Ctx, carried []absint.CarriedLoc) (rs *runSem, changed []ab
 			root, path := absint.SplitKey(k)
 			if l := cx.E.LeafByPath(path); root == "cpu" && l != nil && l.Width > 0 {
 				changed = append(changed, absint.CarriedLoc{Key: k, Type: l.Type})
+			}
+		}
+	}
+	// at every return the CPU is as the last Step (or the caller) left it: Run
+	// itself changes nothing after the loop either (HALT:=false on entry apart)
+	for _, rt := range in.TopReturns {
+		if rt.State == nil || M.And(rt.Pred, entry) == bdd.False {
+			continue
+		}
+		for i, p := range paths {
+			v, ok := rt.State.Get("cpu", p)
+			bv, isBV := v.(dom.BV)
+			if !ok || !isBV {
+				continue
+			}
+			okv := bv.Equal(c.Atom(fmt.Sprintf("PostStep%d(%s)", stepN, p), widths[i])) || bv.Equal(c.Atom("Init("+p+")", widths[i])) ||
+				bv.Equal(c.Atom("loop1.mem(cpu|"+p+")", widths[i])) || (p == "HALT" && bv.Equal(c.Const(1, 0)))
+			if !okv {
+				// a value merged from those (different paths to the return) is fine as well
+				sup := c.AtomsIn(bv...)
+				okv = true
+				for _, a := range sup {
+					if a != fmt.Sprintf("PostStep%d(%s)", stepN, p) && a != "Init("+p+")" && a != "loop1.mem(cpu|"+p+")" && !strings.HasPrefix(a, "atomic.") && !strings.HasPrefix(a, "IsNil(") && !strings.HasPrefix(a, "ctx.") && !strings.HasPrefix(a, "shared(") && !strings.HasPrefix(a, "map.get") && !strings.HasPrefix(a, "PostStep") {
+						okv = false
+					}
+				}
+				// ... but it must be one of them on each path: evaluate under the return's predicate
+				post := c.Atom(fmt.Sprintf("PostStep%d(%s)", stepN, p), widths[i])
+				ini := c.Atom("Init("+p+")", widths[i])
+				car := c.Atom("loop1.mem(cpu|"+p+")", widths[i])
+				isOne := M.Or(c.Eq(bv, post), M.Or(c.Eq(bv, ini), c.Eq(bv, car)))
+				if p == "HALT" {
+					isOne = M.Or(isOne, c.IsZero(bv))
+				}
+				if M.And(rt.Pred, M.Not(isOne)) != bdd.False {
+					okv = false
+				}
+			}
+			if !okv {
+				rs.violations = append(rs.violations, "Run changes CPU."+p+" itself before it returns ("+c.Describe(bv)+")")
 			}
 		}
 	}
